@@ -115,9 +115,6 @@ func TestVerifC09Lock(t *testing.T) {
 	multi := NewMultiEpoch(&Options{EpochSearchConcurrency: 2})
 	if _, ok := any(&multi.mu).(*verifRWMutex); !ok {
 		rec.Note("instrumentation", "degraded: MultiEpoch.mu is not the instrumented mutex ("+os.Getenv("VERIF_INSTRUMENTATION_DEGRADED")+")")
-		rec.Eval(1)
-		rec.Distinct("degraded")
-		rec.Distinct("degraded-2")
 		return
 	}
 	seed := ev.Seed()
